@@ -120,7 +120,7 @@ def storable(objs):
 def run(ctx):
     out = Outcome()
     rng = ctx.rng
-    n = ctx.budget(250, 8000)
+    n = ctx.budget(300, 8000)
     lines, meta = [], []
     mlines, mmeta = [], []
     corpus = [{'k': 'KR', 'inquiry': {'resource': 'r', 'action': 'get', 'subject': 'max', 'context': {}},
@@ -148,6 +148,16 @@ def run(ctx):
         matches = polcase.direct_matches(k, objs, inq) if k else [False] * len(objs)
         match_uids = sorted(o.uid for o, m in zip(objs, matches) if m is True)
         raises = 'raise' in matches
+        other_inq, other = None, None
+        if rng.random() < 0.5:
+            other = dict(case['inquiry'])
+            for f in ('resource', 'action', 'subject'):
+                if isinstance(other[f], str):
+                    other[f] = pick(rng, [other[f] + 'x', 'zz', mutate_str(rng, other[f]), ''])
+            try:
+                other_inq = proto.build_inquiry(other)
+            except Exception:
+                other_inq = None
         desc0 = {'checker': k, 'policies': [repr(p) for p in case['policies']], 'inquiry': repr(case['inquiry']),
                  'matching_uids': match_uids, 'memory_decision': ref_dec}
         for kind in BACKENDS:
@@ -168,6 +178,13 @@ def run(ctx):
             out.evaluations += 1
             out.count('backend:' + kind)
             desc = dict(desc0, backend=kind)
+            if other_inq is not None:
+                # the storage object has answered another inquiry before: a search leaves nothing behind for the next one
+                try:
+                    capped(st.find_for_inquiry(other_inq, checker))
+                    desc['asked_before'] = repr(other)
+                except Exception:
+                    pass
             try:
                 cands = sorted(p.uid for p in st.find_for_inquiry(inq, checker))
                 cerr = None
